@@ -215,7 +215,7 @@ package exec
 //@   modifies unknown
 //@   loop 1 invariant grants == old(grants) + 1 && doneCalls == old(doneCalls) && offerCalls == old(offerCalls) + 1 && lastOfferProcs == procs && m != nil && lastOfferMgr == mgr && regOK()
 //@   loop 2 invariant grants == old(grants) + 1 && doneCalls == old(doneCalls) && offerCalls == old(offerCalls) + 1 && lastOfferProcs == procs && m != nil && regOK()
-//@   loop 3 invariant grants == old(grants) + 1 && doneCalls == old(doneCalls) && offerCalls == old(offerCalls) + 1 && lastOfferProcs == procs && m != nil && regOK()
+//@   loop 3 invariant 0 <= i && grants == old(grants) + 1 && doneCalls == old(doneCalls) && offerCalls == old(offerCalls) + 1 && lastOfferProcs == procs && m != nil && regOK()
 
 // ---- C03: evaluator bookkeeping (sequential abstraction: one evaluator goroutine owns `state`) ----
 
@@ -643,6 +643,7 @@ package exec
 //@   flag abstract_calls frame.Copy, frame.Frame.Slice, frame.Make
 //@   ensures  user-error-is-task-fatal: implies(!panicked && taskDoCalls == old(taskDoCalls) + 1 && funcIsNil(lastDoTask.Combiner) && lastTaskOut.nreads > 0 && lastTaskOut.lastErr != nil && lastTaskOut.lastErr != sliceio.EOF, hastype(returned0, maybeTaskFatalErr) && unbox(returned0, maybeTaskFatalErr).error == lastTaskOut.lastErr)
 //@   modifies unknown
+//@   loop 5 invariant 0 <= j
 //@   loop 8 invariant lastTaskOut == out && lastDoTask == task && taskDoCalls == old(taskDoCalls) + 1 && (out.nreads == 0 || out.lastErr == nil)
 //@   loop 11 invariant lastTaskOut == out && lastDoTask == task && taskDoCalls == old(taskDoCalls) + 1 && (out.nreads == 0 || out.lastErr == nil)
 
